@@ -68,6 +68,11 @@ def scan_function(fn_node, module_names, class_names):
     for n in ast.walk(fn_node):
         if isinstance(n, ast.Name) and isinstance(n.ctx, ast.Store):
             local.add(n.id)
+        elif isinstance(n, (ast.FunctionDef, ast.Lambda)) and n is not fn_node:
+            # parameters of inner functions / lambdas (closures built by a factory): objects handed to THAT function
+            ia = n.args
+            for x in ia.args + ia.kwonlyargs + ia.posonlyargs + ([ia.vararg] if ia.vararg else []) + ([ia.kwarg] if ia.kwarg else []):
+                local.add(x.arg)
     first = fn_node.args.args[0].arg if fn_node.args.args else None
     is_cls_method = any(isinstance(d, ast.Name) and d.id == "classmethod" for d in fn_node.decorator_list)
 
